@@ -22,3 +22,11 @@ prop("C16",
              ("inherits", "XORFileCache", "FileCache", ["store", "store_metadata", "_write_atomically", "get", "remove"]),
              ("inherits", "FernetFileCache", "FileCache", ["store", "store_metadata", "_write_atomically", "get", "remove"])],
      notes="rename (os.replace / Path.replace) is atomic and a crash loses at most the operations after the crash point (no reordering by the OS, no fsync modelled)")
+
+# C12, file half: a concurrent reader of a file cache sees, for every file, the complete old or the complete new content (never a
+# file that is being written), because every write of a final path is a rename of a finished temporary file - the same two
+# structural obligations as above, on the same source.
+prop("C12", static=[("atomic", "FileCache", "_write_atomically"),
+                    ("no-inplace", "FileCache", ["store", "store_metadata"], "_write_atomically"),
+                    ("inherits", "XORFileCache", "FileCache", ["store", "store_metadata", "_write_atomically", "get", "remove"]),
+                    ("inherits", "FernetFileCache", "FileCache", ["store", "store_metadata", "_write_atomically", "get", "remove"])])
